@@ -46,7 +46,7 @@ SPECTRA = {
 
 
 def bounds(tier):
-    return {"n": "1..6" if tier == "quick" else "1..12 (n>6: <=4 distinct eigenvalues)", "spectra": list(SPECTRA),
+    return {"n": ("1..8" if tier == "quick" else "1..12") + " (n>6: <=4 distinct eigenvalues, commuting preconditioners)", "spectra": list(SPECTRA),
             "U": ["I", "householder", "dft"], "b": ["e1", "ones", "Uones", "complex"], "x0": ["zero", "(1+i)ones"],
             "P": ["none", "jacobi", "commuting", "hpd"], "A as": ["MatMul", "function"], "max_iter": ["1", "2", "n", "n+2"],
             "tol": [0, 1e-3], "breakdown": ["indefinite", "negative-definite", "singular PSD"]}
@@ -55,7 +55,7 @@ def bounds(tier):
 def gen_cases(tier, seed):
     T = tier == "thorough"
     cases = []
-    ns = range(1, 13) if T else range(1, 7)
+    ns = range(1, 13) if T else range(1, 9)
     for n in ns:
         for sp_name in SPECTRA:
             if n > 6 and sp_name in ("geom100", "geom1000"):
